@@ -814,6 +814,21 @@ class Rules:
 
     # -- R-EXPECT-TABLE ------------------------------------------------------------------------------
     def r_expect_table(self, I, seg):
+        if short_fn(seg.name) == "dispatch_macro_do" and seg.out.kind == "val":
+            # iterative %do: `%do name = from %to ...` - the '=' after the loop variable is expected
+            st = seg.st
+            pushes = [e.d.get("mode") for e in seg.events[seg.start:] if e.kind == "push" and e.d.get("owner") == seg.name]
+            seq = [abstract_mode(I, st, m) for m in reversed(pushes)]
+            core = [m for m in seq if m != "Ws"]
+            if "MacroNameExpr" in core:
+                i = core.index("MacroNameExpr")
+                ok = i + 2 < len(core) + 1 and core[i + 1:i + 2] == ["E(ASSIGN,DEFAULT)"] and "MacroEval" in core[i + 2:]
+                self.bump("R-EXPECT-TABLE", "keywords", "KwmDo")
+                I.ob("R-EXPECT-TABLE", "KwmDo|ASSIGN-AFTER-NAME", ok, F.file_line(self.fx.bodies[seg.name]["span"]),
+                     "iterative %do: the loop variable is followed by an expected '=' and the start expression" if ok else
+                     "iterative %%do: no ExpectSymbol(ASSIGN) between the loop variable and the start expression: an omitted "
+                     "'=' is not diagnosed; pre-loaded modes in lexing order: %s" % " ".join(seq))
+            return
         if short_fn(seg.name) != "dispatch_macro_call_or_stat" or seg.out.kind != "val":
             return
         st = seg.st
@@ -1122,9 +1137,13 @@ def str_evidence(st, pos, n):
     """A path fact `<prefix of the remaining text at pos> == "<literal of n chars>"`: the literal."""
     needle = "'as_str', ('C', 'str', 'main'), ('C', 'int', %d)" % pos
     for k, v in st.bfacts.items():
-        if v is True and isinstance(k, tuple) and k and k[0] == "eq":
+        sw = (isinstance(k, tuple) and len(k) == 2 and k[0] == "b" and isinstance(k[1], tuple) and len(k[1]) >= 4
+              and k[1][0] == "X" and str(k[1][1]).endswith("str::starts_with"))
+        if v is True and isinstance(k, tuple) and k and (k[0] == "eq" or sw):
             r = repr(k)
             if needle in r:
+                if sw and needle not in repr(k[1][2]):
+                    continue    # starts_with(<remaining text at pos>, literal): the text must be the receiver
                 m = re.findall(r"\('C', 'str', '([^']*)'\)", r.replace("'main'", ""))
                 for lit in m:
                     if len(lit) == n and lit != "":
